@@ -57,11 +57,10 @@ static void write_number(char *dst, sqfs_u64 value, int digits)
 
 static void write_number_signed(char *dst, sqfs_s64 value, int digits)
 {
-	sqfs_u64 neg;
-
 	if (value < 0) {
-		neg = -value;
-		write_binary(dst, ~neg + 1, digits);
+		/* two's complement; negating the most negative value would
+		   overflow */
+		write_binary(dst, (sqfs_u64)value, digits);
 	} else {
 		write_number(dst, value, digits);
 	}
